@@ -40,7 +40,7 @@ def clang_sizeof(prog, exprs):
     if not exprs:
         return {}
     root = prog.root
-    src = '#include "qlibc.h"\n#include "qinternal.h"\n'
+    src = '#include "qlibc.h"\n#include "qlibcext.h"\n#include "qinternal.h"\n'
     names = {}
     for i, e in enumerate(sorted(set(exprs))):
         names['qv_sz_%d' % i] = e
